@@ -7,51 +7,45 @@ C01 helper lemmas, part 5: from lines to bytes and from `WF` to the per-record h
 import Proofs.Lemmas.C01Tokens
 
 namespace C01
-open Fmt Spec.Format Spec.RoundTrip
+open Fmt Spec.RoundTrip
 
 /-! ### lines ↔ bytes -/
 
 /-- a line that survives `bufio.ScanLines`: no LF inside, no CR at the end -/
 def Clean (l : Bytes) : Prop := Bytes.hasByte l 10 = false ∧ l.getLast? ≠ some 13
 
-theorem splitLF_line (R : Bytes) : ∀ l : Bytes, Bytes.hasByte l 10 = false →
-    splitLF (l ++ 10 :: R) = l :: splitLF R := by
+theorem dropCR_clean {l : Bytes} (h : l.getLast? ≠ some 13) : dropCR l = l := by
+  unfold dropCR; simp [h]
+
+/-- `bufio.ScanLines` over a line followed by LF -/
+theorem splitLinesAux_line (R : Bytes) : ∀ (l cur : Bytes), Bytes.hasByte l 10 = false →
+    splitLinesAux cur (l ++ 10 :: R) = dropCR (cur.reverse ++ l) :: splitLinesAux [] R := by
   intro l
   induction l with
-  | nil => intro _; simp [splitLF]
+  | nil => intro cur _; simp [splitLinesAux]
   | cons c l ih =>
-    intro h
+    intro cur h
     simp only [Bytes.hasByte, List.any_cons, Bool.or_eq_false_iff] at h
     have hc : (c == 10) = false := h.1
-    have := ih (by simpa [Bytes.hasByte] using h.2)
-    simp only [List.cons_append, splitLF, hc, Bool.false_eq_true, ↓reduceIte, this]
+    have := ih (c :: cur) (by simpa [Bytes.hasByte] using h.2)
+    simp only [List.cons_append, splitLinesAux, hc, Bool.false_eq_true, ↓reduceIte, this]
+    simp
 
 theorem render_cons (l : Bytes) (ls : List Bytes) : render (l :: ls) = l ++ 10 :: render ls := by
   simp [render]
 
-theorem splitLF_render : ∀ ls : List Bytes, (∀ l ∈ ls, Bytes.hasByte l 10 = false) →
-    splitLF (render ls) = ls ++ [[]] := by
+/-- the reader's line scanner gives back the lines that were rendered -/
+theorem splitLines_render : ∀ ls : List Bytes, (∀ l ∈ ls, Clean l) → splitLines (render ls) = ls := by
   intro ls
   induction ls with
-  | nil => intro _; simp [render, splitLF]
+  | nil => intro _; simp [render, splitLines, splitLinesAux]
   | cons l ls ih =>
     intro h
-    rw [render_cons, splitLF_line _ l (h l List.mem_cons_self),
-      ih (fun l' h' => h l' (List.mem_cons_of_mem _ h'))]
-    rfl
-
-theorem lines_render (ls : List Bytes) (h : ∀ l ∈ ls, Clean l) : lines (render ls) = ls := by
-  unfold lines
-  rw [splitLF_render ls (fun l hl => (h l hl).1)]
-  simp only [List.getLast?_append, List.getLast?_singleton, Option.some_or, beq_self_eq_true, ↓reduceIte,
-    List.dropLast_concat]
-  have : ∀ l ∈ ls, stripCR l = l := by
-    intro l hl
-    unfold stripCR
-    have := (h l hl).2
-    simp [this]
-  rw [List.map_congr_left this]
-  simp
+    have hl := h l List.mem_cons_self
+    have := ih (fun l' h' => h l' (List.mem_cons_of_mem _ h'))
+    unfold splitLines at this ⊢
+    rw [render_cons, splitLinesAux_line _ l [] hl.1, this]
+    simp [dropCR_clean hl.2]
 
 /-! ### observations -/
 
@@ -111,15 +105,6 @@ theorem observeWritten_eq (h : List Rec) : observeWritten h = (kept h).map obser
   | cons r rs ih =>
     cases r <;> simp_all [observeWritten, kept, List.filter_cons]
 
-/-- model and specification records seen through `AObs` -/
-def aobsA : ARec → AObs
-  | .result r => .result r.name r.iters (r.values.map written) (fmOf r.config)
-  | .unit u => .unit u.origUnit u.key u.value u.unit
-  | .err e => .err e.msg
-
-theorem aobsRec_eq (r : Rec) : aobsRec r = aobsA r.abs := by cases r <;> rfl
-theorem aobsS_eq (r : SRec) : aobsS r = aobsA r.abs := by cases r <;> rfl
-
 /-! ### from `WF` to the per-record hypotheses -/
 
 theorem distinct_nodup : ∀ ks : List Bytes, distinct ks = true → ks.Nodup := by
@@ -135,16 +120,16 @@ theorem distinct_nodup : ∀ ks : List Bytes, distinct ks = true → ks.Nodup :=
 theorem written_snd (v : Val) : v.written.2 = if v.origUnit.isEmpty then v.unit else v.origUnit := by
   unfold Val.written; split <;> rfl
 
-theorem recGood_of_ok (O : Oracles) (P : WParams) (fn : Bytes) (hnum : NumOK O P) (r : Rec)
-    (h : recOKnoCR O r = true) : RecGood O P fn r := by
+theorem recGood_of_ok (O : Oracles) (P : WParams) (r : Rec)
+    (hnum : ∀ res, r = .result res → ResNumOK O P res) (h : recOKnoCR O r = true) : RecGood O P r := by
   cases r with
   | err e => trivial
-  | unit u => exact unitGood_of_ok O fn u h
+  | unit u => exact unitGood_of_ok O u h
   | result res =>
     simp only [recOKnoCR, resOKnoCR, Bool.and_eq_true, List.all_eq_true, Bool.not_eq_true'] at h
     obtain ⟨⟨⟨⟨hd, hc⟩, hv⟩, hn⟩, hu⟩ := h
-    refine ⟨distinct_nodup _ hd, fun c hcm => cfgGood_of_ok O fn (hc c hcm), ?_⟩
-    apply benchGood_of_ok O P hnum res hn
+    refine ⟨distinct_nodup _ hd, fun c hcm => cfgGood_of_ok O (hc c hcm), ?_⟩
+    apply benchGood_of_ok O P res (hnum res rfl) hn
     · intro he; rw [he] at hv; simp at hv
     · intro v hvm
       have := hu v hvm
